@@ -31,6 +31,12 @@ for f in (ctx.gg, ctx.ggx, ctx.modelrun):
         print("setup: missing", f)
         print(open(os.path.join(ctx.cache, "coq_build.log")).read()[-3000:])
         sys.exit(1)
+# on the pristine tree the whole development must build (a full .vo build, no -k): a setup that leaves a proof file unbuilt fails here
+rc, out, err = lib.sh("timeout 3000 make -j%d 2>&1" % lib.NCPU, cwd="coq", timeout=3100)
+if rc != 0:
+    print("setup: the Coq development does not build")
+    print((out + err)[-3000:])
+    sys.exit(1)
 bad = lib.hygiene_scan(ctx.coqdir)
 if bad:
     print("setup: forbidden constructs", bad)
